@@ -12,6 +12,7 @@ What is proved:
    regenerated from constraint.cpp (`Gen/Comparators.compareConstraints`) on the key record of the state;
  * `static_satisfy_total` — from `Solver(vs, cs)`, `satisfy()` never exhausts the model's fuel (heap loops,
    the merge loop, the DFS): it returns normally or throws;
+ * `static_satisfy_fixed_point` — a start in which every constraint holds is returned unchanged;
  * `static_satisfy_post` / `static_solve_post` — a normal return means the exit scan passed: every
    constraint has slack ≥ ZERO_UPPERBOUND at the reported positions;
  * `static_block_inv` — from `Solver(vs, cs)` on well-formed input, after `satisfy()` or `solve()`
@@ -158,6 +159,26 @@ theorem static_satisfy_total (vs : Array (Rat × Rat × Rat)) (cs : Array Con)
   · split
     · exact Or.inl ⟨_, _, _, rfl⟩
     · exact Or.inr ⟨_, rfl⟩
+
+/-- **static_satisfy_fixed_point**: if every constraint already holds at the start (`Solver(vs, cs)` places
+    every variable at its desired position), `satisfy()` merges nothing and returns those positions: a feasible
+    start is a fixed point of the static solver (every heap hands back a satisfied constraint or none). -/
+theorem static_satisfy_fixed_point (vs : Array (Rat × Rat × Rat)) (cs : Array Con)
+    (hv : ∀ c ∈ cs, c.l < vs.size ∧ c.r < vs.size ∧ c.unsat = false)
+    (hfeas : ∀ ci : Nat, 0 ≤ rawSlack (SSt.init vs cs).st ci) :
+    ∃ s', (SSt.init vs cs).satisfy =
+        (s', .ok (SSt.init vs cs).st.positions ((SSt.init vs cs).st.cons.any (·.active))) ∧
+      s'.st = (SSt.init vs cs).st.cleanup := by
+  apply satisfy_idle _ hfeas (AdaptaVerif.Lemmas.VpscStaticOrder.totalOrder_ok _ (init_inv vs cs hv)) rfl
+  show (St.init vs cs).fuelOut = false
+  unfold St.init
+  simp only
+  rw [← Array.foldl_toList, (foldl_addConstraint_fuel _ _).1]
+
+-- non-vacuity: 0 ≤ 3 - 1 - 0
+#guard (let s := SSt.init #[(0, 1, 1), (3, 1, 1)] #[mkCon 0 1 1 false]
+        decide (0 ≤ rawSlack s.st 0) &&
+        (match s.satisfy with | (_, .ok p a) => p[0]! == 0 && p[1]! == 3 && !a | _ => false))
 
 /-- **static_merge_total**: from ANY state satisfying `WF` in which the model's loop fuel `m + n + 2` covers
     the number of allocated blocks (always the case during `satisfy`), `mergeLeft` and `mergeRight` on a block
